@@ -179,7 +179,11 @@ def step (s : State) (ws : List String) : State × String :=
     | none => (s, "bad-op")
     | some cs =>
       if !nodup cs then (s, "illegal-choice")
-      else (s, match mergeSplit cs with | none => "none" | some c => s!"some {tok c}")
+      else
+        -- the versions are listed in ascending order of their key in the result map (choice witness for the
+        -- content hashes): entry i has key i; the model visits them as the code does (`visitOrder`)
+        let m : List (Nat × Content) := (List.range cs.length).zip cs
+        (s, match mergeSplitMap m with | none => "none" | some c => s!"some {tok c}")
   | _ =>
     match parseOp ws with
     | none => (s, "bad-op")
@@ -223,6 +227,13 @@ def searchCandidates : List String :=
   -- Quorum::N above the close group size
   hist ["get 0 0 n6", "found 0 1 hc0", "found 0 2 hc0", "found 0 3 hc0", "found 0 4 hc0", "found 0 5 hc0", "finished 0"] ++
   hist ["get 0 0 n7", "found 0 1 hc0", "found 0 2 hc0", "found 0 3 hc0", "found 0 4 hc0", "found 0 5 hc0", "found 0 6 hc0", "found 0 7 hc0"] ++
+  -- a caller that hung up (head / middle of the queue) must not starve the others
+  hist ["get 0 0 one", "get 0 1 one", "get 0 2 one", "hangup 0", "found 0 1 hc0"] ++
+  hist ["get 0 0 n2", "get 0 1 n2", "get 0 2 n2", "hangup 1", "found 0 1 hc0", "finished 0"] ++
+  hist ["get 0 0 one", "get 0 1 one", "hangup 0", "timeout 0"] ++
+  -- the merge of a split must not depend on the iteration order of the result map (ties: equal highest counters,
+  -- several verified bases, mixed kinds)
+  hist ["merge s0.2.0g s0.2.1g", "merge s0.2.1g s0.2.0g", "merge r0g.0 r1g.1", "merge r1g.1 r0g.0", "merge t0 r0g.1", "merge s0.1.0g s0.1.1g s0.1.2g"] ++
   -- split
   hist ["get 0 0 n2", "found 0 1 hc0", "found 0 2 hc1", "found 0 3 hc1"] ++
   hist ["get 0 0 n2", "found 0 1 hc0", "found 0 2 hc1", "finished 0"]
